@@ -3,6 +3,7 @@ import CppUModel.Proofs.MockLazy
 import CppUModel.Proofs.MockIop
 import CppUModel.Proofs.MockOut
 import CppUModel.Model.MockParam
+import CppUModel.Gen.MockPlugin
 import CppUModel.Props.C09
 /-!
 # C08 — the mock verdict is exact
@@ -463,6 +464,35 @@ theorem param_int_ne_nonint (a b : MVal) (hwb : b.WF) (ha : a.isInt = true) (hb 
   obtain ⟨z, hz⟩ := hka
   rw [hz]
   cases b <;> simp [MVal.isInt] at hb <;> simp [paramKey, denote?]
+
+/-! ### tests run with `MockSupportPlugin` -/
+
+/-- the plugin's post action leaves the global mock as new -/
+theorem pluginPost_world (r : BodyResult) (h : r.w.glob.name = "") : (pluginPost r).2 = World.init := by
+  simp [pluginPost, World.clear, World.touch, Scope.clear, World.init, h]
+
+/-- **plugin_verdict_is_scenario_verdict.** In a run of any number of tests with `MockSupportPlugin`
+    installed, the failures of a test are exactly those of its own scenario on a fresh mock, followed
+    — if the test has not failed itself — by those of `mock().checkExpectations()`: the verdict of
+    a test does not depend on the tests before it, whether they passed or failed. -/
+theorem plugin_verdict_is_scenario_verdict :
+    ∀ (bodies : List (World → BodyResult)),
+      (∀ b ∈ bodies, ∀ w, w.glob.name = "" → (b w).w.glob.name = "") →
+      pluginRun bodies World.init = bodies.map (fun b => testVerdict b World.init)
+  | [], _ => rfl
+  | b :: rest, h => by
+    have hb := h b (by simp) World.init rfl
+    simp only [pluginRun, List.map_cons]
+    rw [pluginPost_world (b World.init) hb]
+    rw [plugin_verdict_is_scenario_verdict rest (fun b' hb' => h b' (by simp [hb']))]
+
+/-- what a test's verdict is: its body's failures, then the end-of-test check unless the test itself failed -/
+theorem testVerdict_eq (body : World → BodyResult) (w : World) :
+    testVerdict body w = (body w).msgs ++ (if (body w).failed then [] else (body w).w.checkAllFailures) := rfl
+
+/-- the guard of the end-of-test check in `MockSupportPlugin::postTestAction`, regenerated from the
+    source on every run, is the test's OWN state — not a count over the whole run -/
+theorem plugin_guard_is_own_test : Gen.MockPlugin.postGuard = "!test.hasFailed()" := by decide
 
 /-! ### the hypotheses are what the API produces -/
 
